@@ -342,12 +342,17 @@ func c15PrepareBenign() error {
 }
 
 type dashReq struct {
-	Kind   string            // "integration" | "source"
-	IG     int               // integration submitted (the others are already stored)
-	Body   string            // integration JSON
-	Form   map[string]string // source form values
-	Probe  bool              // only the handler's verdict is wanted
-	SrcRef string            // dash-src: source name the stored integration a_refd additionally references
+	Kind  string            // "integration" | "source"
+	IG    int               // integration submitted (the others are already stored)
+	Body  string            // integration JSON
+	Form  map[string]string // source form values
+	Probe bool              // only the handler's verdict is wanted
+	// FileConf: the configuration FILE of the process (default: the benign sources-only file). It goes through
+	// decode + ValidateFix as in main.go; RenameSrc renames a source in every stored / submitted integration so
+	// that they reference the (possibly hostile) file source.
+	FileConf  string
+	RenameSrc [2]string
+	SrcRef    string // dash-src: source name the stored integration a_refd additionally references
 }
 
 // c15DashExec: DASHBOARD PATH. Database migrated for the benign configuration; file configuration =
@@ -371,8 +376,47 @@ func c15DashExec(rq dashReq, chains c15Chains, needles []string) (res c15Res) {
 			return
 		}
 	}
+	fileConf := b.srcOnly
+	if rq.FileConf != "" {
+		fileConf = rq.FileConf
+		// start-up of the process with this file (main.go: decode, ValidateFix; nothing to migrate)
+		var fc config.Root
+		if err := json.NewDecoder(strings.NewReader(fileConf)).Decode(&fc); err != nil {
+			res.outcome, res.detail = "rejected:decode", err.Error()
+			return
+		}
+		if err := config.ValidateFix(&fc); err != nil {
+			res.outcome, res.detail = classifyReject(err), err.Error()
+			return
+		}
+		if !screenURLs(fc) {
+			res.outcome = "exit:url-parse"
+			return
+		}
+		if rq.Probe {
+			res.outcome = "accepted-param:probe"
+			return
+		}
+	}
+	rename := func(doc string) string {
+		if rq.RenameSrc[0] == "" {
+			return doc
+		}
+		var ig config.Integration
+		if json.Unmarshal([]byte(doc), &ig) != nil {
+			return doc
+		}
+		for i := range ig.Sources {
+			if ig.Sources[i].Name == rq.RenameSrc[0] {
+				ig.Sources[i].Name = rq.RenameSrc[1]
+			}
+		}
+		x, _ := json.Marshal(ig)
+		return string(x)
+	}
 	w := world.New(nil, world.Cfg{Snap: b.snap, Chains: chains.init})
 	for i, st := range b.stored {
+		st = rename(st)
 		if rq.Kind == "integration" && i == rq.IG {
 			continue
 		}
@@ -392,7 +436,7 @@ func c15DashExec(rq dashReq, chains c15Chains, needles []string) (res c15Res) {
 	before := len(w.PG.Dump("shovel.integrations")) + len(w.PG.Dump("shovel.sources"))
 	stored := false
 	w.Run(func() {
-		conf, err := world.ParseConf(b.srcOnly)
+		conf, err := world.ParseConf(fileConf)
 		if err != nil {
 			w.HarnessErr = "sources-only configuration: " + err.Error()
 			return
